@@ -1601,11 +1601,11 @@ class SymmCards():
             if latt_symm not in self._symmcards:
                 self._symmcards.append(latt_symm)
         if self.shx.latt.centric:
-            self._symmcards.append(SymmetryElement(symm_data, centric=True))
+            inv_symm = SymmetryElement(symm_data, centric=True)
+            self._symmcards.append(inv_symm)
             for symm in self.shx.latt.latt_ops:
-                latt_symm = new_symm.apply_latt_symm(symm)
-                latt_symm.centric = True
-                self._symmcards.append(latt_symm)
+                # The centred copies of the inverted operator (apply_latt_symm() keeps the centric flag):
+                self._symmcards.append(inv_symm.apply_latt_symm(symm))
 
     def set_centric(self, value: bool) -> None:
         """
